@@ -388,6 +388,13 @@ def r5_views(chk):
     pai = sub.members.get("parent_atom_indices")
     chk.require(pai is not None and pai.getter is not None, "Substructure.parent_atom_indices vanished")
     ok = "self._atoms" in norm(pai.getter) and "yield_parent_atom_indices" in norm(pai.getter)
+    # ... in the order of the substructure's own atom list: row k of the view is atom k of the view.  A re-ordering wrapper
+    # (sorted / set / reversed) pairs the rows with other atoms than `atoms` lists (alignment with a mapping that is not ascending)
+    reorder = [c for c in ast.walk(pai.getter) if isinstance(c, ast.Call) and (call_name(c) or "").split(".")[-1] in ("sorted", "set", "frozenset", "reversed", "unique", "sort")]
+    chk.decide(not reorder, "C05.R5", "molli/chem/structure.py:Substructure.parent_atom_indices:in-atom-order", f"{sub.module.relpath}:{pai.getter.lineno}",
+               "the indices keep the order of the substructure's atoms",
+               f"parent_atom_indices re-orders the indices (`{short(reorder[0], 40) if reorder else ''}`): coordinate row k of the view no longer belongs to atom k of the view - an alignment "
+               "to reference coordinates listed in another order pairs the wrong atoms, and the RMSD reported is not the one achieved")
     chk.decide(ok, "C05.R5", "molli/chem/structure.py:Substructure.parent_atom_indices", f"{sub.module.relpath}:{pai.getter.lineno}",
                "indices of the substructure's own atoms in the parent", "parent_atom_indices is no longer computed from the substructure's own atoms")
     # nothing derived from the (mutable) atom lists may be memoised on the object: a cached index list goes stale with the next
